@@ -286,6 +286,11 @@ def run(ctx) -> None:
             ok = bool(raises) and all(loop in dom[r] for r in raises) and not inside
             rep.add("C02.R4", f"{ss.qname}:apply-before-raise", ok, f"{ss.module.rel}:{loop.lineno}", "every successful result is applied before the error is raised" if ok else "the error can be raised before all successful results were applied")
 
+    # a failing map reports the first failing item in input order under both runners and every schedule
+    from .c10 import check_first_failure
+
+    check_first_failure(ctx, "C02.R4")
+
     # ---- R5 -------------------------------------------------------------------
     pairs: list[tuple[str, list[FuncInfo], list[FuncInfo]]] = []
     sync_ss = [s for s in sss if not s.is_async]
